@@ -37,6 +37,27 @@ pub fn machines(opts: &Opts) -> Vec<MCfg> {
         m
     };
     let mut out = Vec::new();
+    // convolution of tracked and untracked images, and a user op whose derivative uses itself
+    {
+        let img = vec![
+            LeafSpec { dims: vec![1, 3, 3], vals: (0..9).map(|i| 0.5 + 0.25 * ((i * 2 + var as usize) % 7) as f64).collect(), tracked: false },
+            LeafSpec { dims: vec![1, 1, 2, 2], vals: vec![1.0, -2.0, 0.5, 1.5], tracked: true },
+            LeafSpec { dims: vec![1, 3, 3], vals: (0..9).map(|i| 1.0 + 0.5 * ((i * 3) % 5) as f64).collect(), tracked: true },
+        ];
+        let mut m = base_cfg("conv/N2P1D2", img, vec![OpK::Conv { sr: 1, sc: 1 }, OpK::Mul, OpK::Relu], 5);
+        m.bounds = Bounds { builds: 2, passes: 1, drops: 2, clears: 1, depth: if opts.tier == Tier::Quick { 5 } else { 6 }, ..Bounds::default() };
+        m.check_ownership = true;
+        m.check_ref = true;
+        m.seeds = vec![0];
+        m.clear_vias = vec![0];
+        out.push(m);
+        let mut m = base_cfg("nested-user-op/N2P1D2", leaves(var), vec![OpK::Mul, OpK::UMulN], 5);
+        m.bounds = Bounds { builds: 2, passes: 1, drops: 2, depth: 5, ..Bounds::default() };
+        m.check_ownership = true;
+        m.check_ref = true;
+        m.seeds = vec![0];
+        out.push(m);
+    }
     match opts.tier {
         Tier::Quick => {
             out.push(mk("pool/N2P2D2", Bounds { builds: 2, passes: 2, clears: 1, drops: 2, clones: 1, fetches: 1, updates: 1, depth: 5, ..Bounds::default() }, vec![OpK::Mul, OpK::Ln, OpK::Reshape(vec![6])], 5));
